@@ -224,6 +224,7 @@ def finish(mod, modname, prop, tier, seed, results, rec_funcs, wall, verbose=Fal
         'inconclusive': len(problems),
         'not_explored_timeouts': [{kk: vv for kk, vv in r['desc'].items() if kk != '_idx'} for r in results if r['status'] == 'timeout'][:40],
         'paths_explored': sum(r.get('paths', 1) for r in results),
+        'slowest_cases_s': [round(r.get('wall_s', 0.0), 2) for r in sorted(results, key=lambda r: -r.get('wall_s', 0.0))[:5]],
     }
     for r in results:
         if r.get('coverage_extra'):
